@@ -1,5 +1,6 @@
 import GoflowModel.Excellent.Template
 import GoflowModel.Lemmas.Scanner
+import GoflowModel.Gen.Grammar
 /-!
 # C12 — Literal text and string literals are represented faithfully
 
@@ -141,5 +142,10 @@ theorem scanner_lexer_disagree_witness :
     lexText "\"a\\\\\")".toList = some ("\"a\\\\\"".toList, [')']) ∧
     (scanExpr "\"a\\\\\")".toList).2.1 = false := by
   decide
+
+/-- tie to the grammar source (regenerated from `antlr/Excellent3.g4` on every run): the `TEXT`
+rule is the one `LexText` transcribes. -/
+theorem text_rule_as_modelled :
+    Gen.Grammar.excellent3Rules.lookup "TEXT" = some "'\"' (~[\"] | '\\\\\"')* '\"'" := by decide
 
 end GoflowModel.Props.C12
